@@ -91,7 +91,31 @@ def rule_converters(ctx):
     ap = [m for m in s.by_kind("mutate") if m.how == "method:append"]
     if not ap and any(c.fn is not None and c.fn.op == "iter" and any(z.op == "comp" and any(y.op == "attr" and y.a[1] == "append" for y in tm.walk(z.a[1])) for z in tm.walk(c.fn)) for c in s.calls()):
         raise AnalysisError(R, "load_delimited: the columns are filled through a list of bound append methods; which column receives which value is not read")
-    good = bool(ap) and all(m.val.op == "tuple" and len(m.val.a) == 1 and m.val.a[0].op == "call" and m.val.a[0].a[0].op == "iter" for m in ap)
+    def through_helper(v):
+        """converter(value) made inside a private helper that was not evaluated in place (it wraps the call in its own
+        try / except): the helper returns <its converter parameter>(<its value parameter>) on every path"""
+        if not (v.op == "call" and v.a[0].op in ("func", "localfunc") and ctx.program.has_func(call_name(v))):
+            return v
+        g = ctx.program.func(call_name(v))
+        hs = ctx.S.get(g.qual)
+        if not hs.returns:
+            return v
+        bound = {}
+        for i_, a_ in enumerate(v.a[1]):
+            if i_ < len(g.params):
+                bound[g.params[i_]] = a_
+        for n_, a_ in v.a[2]:
+            bound[n_] = a_
+        outs = set()
+        for r_ in hs.returns:
+            t_ = r_.term
+            if t_.op == "call" and t_.a[0].op == "param" and len(t_.a[1]) == 1 and t_.a[1][0].op == "param" and not t_.a[2] and t_.a[0].a[0] in bound and t_.a[1][0].a[0] in bound:
+                outs.add(tm.call(bound[t_.a[0].a[0]], (bound[t_.a[1][0].a[0]],)))
+            else:
+                return v
+        return outs.pop() if len(outs) == 1 else v
+
+    good = bool(ap) and all(m.val.op == "tuple" and len(m.val.a) == 1 and through_helper(m.val.a[0]).op == "call" and through_helper(m.val.a[0]).a[0].op == "iter" for m in ap)
     if not good and ap:
         # values may travel through intermediate lists (rows first, columns afterwards): every appended value is either
         # converter(value) itself or read back, unchanged, from a list that only ever received such values
